@@ -102,6 +102,63 @@ def gen_cases(rng, thorough):
     return cases
 
 
+def concurrent_appends(out, wd, rng, replay):
+    """threads appending through ConcurrentLogBuilder under the syscall shim; Trace_LogConc validates durability at
+    return, exactly-once / whole batches and real-time order."""
+    import re
+    import subprocess
+    shim = os.path.join(vlib.VERIF, "shim", "shim.so")
+    if replay:
+        docs = [json.load(open(replay))["lcdoc"]]
+    else:
+        docs = [{"threads": t, "per": p, "big": b} for (t, p, b) in [(2, 30, 0), (4, 25, 0), (8, 20, 0), (3, 12, 30000), (16, 6, 0)]]
+        if vlib.tier() != "quick":
+            docs += [{"threads": rng.choice([2, 3, 5, 8, 12]), "per": rng.choice([10, 40, 80]), "big": rng.choice([0, 0, 20000, 30000])} for _ in range(25)]
+    for i, d in enumerate(docs):
+        dp, lp, op = os.path.join(wd, f"lc{i}.json"), os.path.join(wd, f"lc{i}.shim"), os.path.join(wd, f"lc{i}.out")
+        root = os.path.join(wd, f"lcdir{i}")
+        json.dump(d, open(dp, "w"))
+        env = dict(os.environ, LD_PRELOAD=shim, SHIM_ROOT=root, SHIM_LOG=lp)
+        p = subprocess.run([vlib.VH, "logconc-stress", dp, os.path.join(root, "log"), op], env=env, stdout=subprocess.PIPE, stderr=subprocess.PIPE, text=True, timeout=600)
+        if p.returncode != 0 or not os.path.exists(op):
+            path = vlib.save_replay(PROP, "logconc", {"lcdoc": d, "rc": p.returncode, "stderr": p.stderr[-400:]})
+            out.violation(path, f"concurrent appends: harness died rc={p.returncode} {p.stderr[-200:]}")
+            continue
+        res = json.load(open(op))
+        tp = os.path.join(wd, f"lc{i}.ndjson")
+        n = 0
+        with open(tp, "w") as f:
+            f.write(json.dumps({"ev": "layout", "batch_end": res["batch_end"]}) + "\n")
+            for line in open(lp):
+                e = json.loads(line)
+                if e["call"] == "mark":
+                    f.write(json.dumps(e["mark"]) + "\n")
+                elif e["call"] == "write" and e["path"] == "log" and e["ret"] == 0:
+                    f.write(json.dumps({"ev": "write", "len": e["len"]}) + "\n")
+                elif e["call"] in ("fdatasync", "fsync") and e["path"] == "log" and e["ret"] == 0:
+                    f.write(json.dumps({"ev": "sync"}) + "\n")
+                else:
+                    continue
+                n += 1
+            f.write(json.dumps({"ev": "final", "runs": res["runs"], "end": res["end"], "size": res["size"], "threads_died": res["threads_died"], "total": res["total"]}) + "\n")
+        r = run_tlc("Trace_LogConc", cfg_text(spec="TraceSpec", postcondition="TraceAccepted"), wd, f"tlc{i}", workers=1, timeout=900, dfs=True, heap="3g", env_extra={"TRACE": tp})
+        text = open(r.out, errors="replace").read()
+        out.states += r.distinct
+        out.transitions += r.generated
+        m = re.search(r'"matched", (\d+), "of", (\d+)', text)
+        if m or r.distinct < n + 3:
+            if r.error and not m:
+                raise ToolError(f"TLC Trace_LogConc: {r.error} ({r.out})")
+            g = re.findall(r'"GUARD-FAILED",\s*"([^"]+)"', text)
+            lines = open(tp).read().splitlines()
+            at = int(m.group(1)) if m else 0
+            path = replay or vlib.save_replay(PROP, "logconc", {"lcdoc": d, "guard": g[-1] if g else None, "rejected_event": json.loads(lines[at]) if at < len(lines) else None})
+            out.violation(path, f"concurrent appends: guard={g[-1] if g else None} event={lines[at][:200] if at < len(lines) else None}")
+        else:
+            out.traces += 1
+            out.extra["concurrent_append_events"] = out.extra.get("concurrent_append_events", 0) + n
+
+
 def check(replay=None):
     out = Outcome(PROP)
     wd = vlib.workdir()
@@ -118,7 +175,8 @@ def check(replay=None):
         out.add_tlc(f"toy_B{blk}_H{hm}_N{n}", r, consts)
     # B: real scale, TLC predicts layout and read outcomes; the implementation must agree
     if replay:
-        cases = [json.load(open(replay))["case"]]
+        body = json.load(open(replay))
+        cases = [body["case"]] if "case" in body else []
     else:
         cases = gen_cases(rng, vlib.tier() != "quick")
     cp = os.path.join(wd, "cases.ndjson")
@@ -143,6 +201,8 @@ def check(replay=None):
         for s in x["samples"][:1]:
             if len(out.samples) < 3:
                 out.samples.append(json.dumps(s, separators=(",", ":"))[:500])
+    if not replay or "lcdoc" in json.load(open(replay)):
+        concurrent_appends(out, wd, rng, replay)
     out.extra["rule"] = ("toy scale: every sequence of <=N batch sizes 1..BLOCK, every cut; real scale: seeded size sequences leaving "
                          "0..40 bytes before a 1 MiB boundary, cuts around every frame and block boundary")
     return out.finish("model_checking", ASSUMPTIONS)
